@@ -155,3 +155,29 @@ func verifC03AfterPrefix(k int) {
 func VerifC03AfterPrefix1() { verifC03AfterPrefix(1) }
 func VerifC03AfterPrefix2() { verifC03AfterPrefix(2) }
 func VerifC03AfterPrefix3() { verifC03AfterPrefix(3) }
+
+// verifC03AliasText: a function declaration whose alias text ends in k arbitrary bytes (the alias
+// mini-language with its <parameter> and <!negation> markers is scanned from inside a text
+// literal, out of reach of the token harnesses).
+func verifC03AliasText(k int, boolean bool) {
+	ret, val := "eine Zahl", "1"
+	if boolean {
+		ret, val = "einen Wahrheitswert", "wahr"
+	}
+	head := "Die Funktion foo gibt " + ret + " zurück, macht:\n\tGib " + val + " zurück.\nUnd kann so benutzt werden:\n\t\"foo "
+	src := append([]byte(head), rt.Bytes("alias", k)...)
+	src = append(src, []byte("\"\n")...)
+	delivered := 0
+	mod, err := Parse(Options{FileName: "x.ddp", Source: src, ErrorHandler: func(ddperror.Error) { delivered++ }})
+	if err != nil {
+		_, crashed := err.(*ParserError)
+		rt.Assert(!crashed, "the frontend does not crash internally (ParserError)")
+		return
+	}
+	rt.Assert(mod != nil && mod.Ast != nil, "a module is returned")
+}
+
+func VerifC03AliasText1()     { verifC03AliasText(1, false) }
+func VerifC03AliasText2()     { verifC03AliasText(2, false) }
+func VerifC03AliasTextBool2() { verifC03AliasText(2, true) }
+func VerifC03AliasTextBool3() { verifC03AliasText(3, true) }
